@@ -17,10 +17,10 @@ pub fn units(id: &str, tier: &str) -> Option<Vec<Unit>> {
     let thorough = tier == "thorough";
     Some(match id {
         "C01" => { let mut v = seqprops::c01(thorough); v.push(schedprops::many_subscriptions_unit(thorough)); v.push(c15::limits_unit(thorough)); v.push(seqprops::deadline_walk(thorough)); v.push(seqprops::big_batch_expiry_race(thorough)); v.extend(seqprops::core_units(thorough)); v.extend(schedprops::c01_sched(thorough)); v.push(schedprops::recreate_unit(thorough)); v }
-        "C02" => { let mut v = seqprops::c02(thorough); v.extend(seqprops::core_units(thorough)); v.extend(schedprops::c02_sched(thorough)); v.push(c03::abandoned_pull_ack_unit(thorough)); v }
+        "C02" => { let mut v = seqprops::c02(thorough); v.extend(seqprops::core_units(thorough)); v.extend(schedprops::c02_sched(thorough)); v.push(c03::abandoned_pull_ack_unit(thorough)); v.push(schedprops::ack_at_deadline_unit(thorough)); v }
         "C03" => { let mut v = c03::units(thorough); v.extend(seqprops::core_units(thorough)); v.extend(seqprops::stream_units(thorough)); v.push(seqprops::reincarnation_unit(thorough)); v }
         "C04" => { let mut v = seqprops::c04(thorough); v.extend(seqprops::core_units(thorough)); v }
-        "C05" => { let mut v = seqprops::c05(thorough); v.extend(seqprops::core_units(thorough)); v }
+        "C05" => { let mut v = seqprops::c05(thorough); v.extend(seqprops::core_units(thorough)); v.push(schedprops::ack_at_deadline_unit(thorough)); v.push(c03::stream_control_order_unit(thorough)); v }
         "C06" => { let mut v = c06::units(thorough); v.extend(seqprops::stream_units(thorough)); v.push(c15::limits_unit(thorough)); v }
         "C07" => { let mut v = c07::units(thorough); v.push(c15::blocking_unit(thorough)); v }
         "C08" => { let mut v = seqprops::c08(thorough); v.extend(schedprops::c08_sched(thorough)); v }
